@@ -12,7 +12,9 @@ import (
 	"io"
 	"net/http"
 	"net/http/httptest"
+	"net/http/httptrace"
 	"net/http/httputil"
+	"net/textproto"
 	"net/url"
 	"strings"
 
@@ -24,7 +26,7 @@ import (
 var (
 	methods  = []string{"GET", "POST", "HEAD"}
 	accepts  = []string{"", "text/html", "*/*", "application/json", "text/html;q=0.9, */*"}
-	framings = [][2]string{{"", ""}, {"Sec-Fetch-Dest", "iframe"}, {"Sec-Fetch-Mode", "nested-navigate"}, {"Referer", "http://client.example/doc?x=1"}, {"Referer", "http://client.example/other"}, {"Referer", "http://evil.example/doc"}, {"Referer", "://bad"}}
+	framings = [][2]string{{"", ""}, {"Sec-Fetch-Dest", "iframe"}, {"Sec-Fetch-Mode", "nested-navigate"}, {"Referer", "http://client.example/doc?x=1"}, {"Referer", "http://client.example/doc?page=2"}, {"Referer", "http://client.example/other"}, {"Referer", "http://evil.example/doc"}, {"Referer", "://bad"}}
 	statuses = []int{200, 201, 204, 206, 304, 404, 500}
 	ctypes   = [][]string{nil, {"text/html"}, {"text/html; charset=utf-8"}, {"application/xhtml+xml"}, {"TEXT/HTML"}, {"text/plain"}, {"application/json"}, {"text/plain", "text/html"}}
 	cdisps   = []string{"", "inline", "attachment; filename=x.html"}
@@ -100,9 +102,26 @@ type backendRT struct {
 	header http.Header
 	pieces []string
 	head   bool
+	// interim: an informational response (103 Early Hints) precedes the final one
+	interim bool
+}
+
+// skip1xx is a client-side view of a response: informational responses are not the answer.
+type skip1xx struct{ *httptest.ResponseRecorder }
+
+func (s skip1xx) WriteHeader(code int) {
+	if code >= 100 && code < 200 && code != 101 {
+		return
+	}
+	s.ResponseRecorder.WriteHeader(code)
 }
 
 func (b *backendRT) RoundTrip(r *http.Request) (*http.Response, error) {
+	if b.interim {
+		if tr := httptrace.ContextClientTrace(r.Context()); tr != nil && tr.Got1xxResponse != nil {
+			tr.Got1xxResponse(103, textproto.MIMEHeader{"Link": {"</style.css>; rel=preload"}})
+		}
+	}
 	h := b.header.Clone()
 	resp := &http.Response{StatusCode: b.status, Status: fmt.Sprintf("%d X", b.status), Proto: "HTTP/1.1", ProtoMajor: 1, ProtoMinor: 1, Header: h, Request: r, ContentLength: -1}
 	if r.Method == "HEAD" || b.status == 204 || b.status == 304 {
@@ -218,7 +237,7 @@ func eval(tier string, n int) vx.Exec {
 		hdr.Set("Vary", "Accept-Encoding")
 	}
 	mk := func() *backendRT {
-		return &backendRT{status: statuses[d.s], header: hdr, pieces: segment(body, segs[d.sg])}
+		return &backendRT{status: statuses[d.s], header: hdr, pieces: segment(body, segs[d.sg]), interim: d.b%3 == 2}
 	}
 	target, _ := url.Parse("http://backend.test")
 	newReq := func() *http.Request {
@@ -240,7 +259,7 @@ func eval(tier string, n int) vx.Exec {
 	plain := httputil.NewSingleHostReverseProxy(target)
 	plain.Transport = mk()
 	base := httptest.NewRecorder()
-	plain.ServeHTTP(base, newReq())
+	plain.ServeHTTP(skip1xx{base}, newReq())
 	// configured chain
 	rp := httputil.NewSingleHostReverseProxy(target)
 	rp.Transport = mk()
@@ -258,7 +277,7 @@ func eval(tier string, n int) vx.Exec {
 		}
 	}
 	out := httptest.NewRecorder()
-	h.ServeHTTP(out, newReq())
+	h.ServeHTTP(skip1xx{out}, newReq())
 
 	desc := fmt.Sprintf("%s %s accept=%q %v -> %d ct=%q cd=%q body=%s seg=%s", cfg, methods[d.m], accepts[d.a], framings[d.f], statuses[d.s], ctypes[d.ct], cdisps[d.cd], bodies[d.b].name, segs[d.sg])
 	ob, bb := out.Body.String(), base.Body.String()
@@ -278,7 +297,7 @@ func eval(tier string, n int) vx.Exec {
 		return x
 	}
 	bannerEligible := methods[d.m] == "GET" && strings.Contains(accepts[d.a], "text/html") && statuses[d.s] == 200 && !strings.Contains(cdisps[d.cd], "attachment") && html
-	alreadyFramed := framings[d.f][0] == "Sec-Fetch-Dest" || framings[d.f][0] == "Sec-Fetch-Mode" || framings[d.f][1] == "http://client.example/doc?x=1"
+	alreadyFramed := framings[d.f][0] == "Sec-Fetch-Dest" || framings[d.f][0] == "Sec-Fetch-Mode" || framings[d.f][1] == "http://client.example/doc?x=1" || framings[d.f][1] == "http://client.example/doc?page=2"
 	if framed {
 		if !bannerEligible {
 			x.Violations = append(x.Violations, "BANNER-INELIGIBLE: the banner frame was served for a response that is not a 200, non-attachment HTML reply to a GET accepting text/html: "+desc)
@@ -305,7 +324,7 @@ func eval(tier string, n int) vx.Exec {
 			r2.URL.RawQuery = "x=2&y=3"
 			rp.Transport = mk()
 			out2 := httptest.NewRecorder()
-			h.ServeHTTP(out2, r2)
+			h.ServeHTTP(skip1xx{out2}, r2)
 			if strings.Contains(out2.Body.String(), "inverting-proxy-frame") && !strings.Contains(out2.Body.String(), `src="/doc?x=2&y=3"`) {
 				x.Violations = append(x.Violations, "BANNER-URL: a second navigation (/doc?x=2&y=3) got a frame that does not embed its own URL: "+desc)
 			}
